@@ -85,6 +85,23 @@ def run_worker(prop, mode, shard, seed, out, extra=(), timeout=None):
 
 
 def main(argv=None):
+    """Each invocation works in its own scratch directory (.work/<ID>.<pid>) so that runs of the same property
+    can overlap; on exit it becomes .work/<ID> (kept for inspection)."""
+    holder = {}
+    try:
+        return _main(argv, holder)
+    finally:
+        work = holder.get("work")
+        if work and os.path.isdir(work):
+            final = work.rsplit(".", 1)[0]
+            shutil.rmtree(final, ignore_errors=True)
+            try:
+                os.rename(work, final)
+            except OSError:
+                shutil.rmtree(work, ignore_errors=True)
+
+
+def _main(argv, holder):
     ap = argparse.ArgumentParser(prog="check")
     ap.add_argument("prop")
     ap.add_argument("--tier", default=os.environ.get("VERIF_TIER", "quick"), choices=["quick", "thorough"])
@@ -101,7 +118,8 @@ def main(argv=None):
     seed = a.seed if a.seed is not None else int(os.environ.get("VERIF_SEED", "1") or 1)
     sys.path.insert(0, ROOT)
     mod = importlib.import_module(f"props.{prop.lower()}")
-    work = os.path.join(WORK, prop)
+    work = os.path.join(WORK, f"{prop}.{os.getpid()}")
+    holder["work"] = work
     shutil.rmtree(work, ignore_errors=True)
     os.makedirs(work, exist_ok=True)
     t0 = time.time()
